@@ -48,6 +48,11 @@ def main(pid, prop_module, theorems, own_props, rule, known_classes_doc):
                 for t in theorems:
                     if "Closed under the global context" not in assum.get(t, ""):
                         proof_broken = f"theorem {t} is not closed: {assum.get(t)}"
+    if tier == "thorough" and not proof_broken:
+        cok, csum = hl.coqchk(prop_module)
+        notes.append(csum)
+        if not cok:
+            proof_broken = csum
     # ---- 3. rustc on the corpus and on a sample of the Send/Sync grid
     rng = random.Random(seed)
     items = [it for it in corpus.ITEMS if it[1] in own_props]
